@@ -199,6 +199,18 @@ def function_inputs(target, seed=0, n=400):
             if target == 'segment.detection':
                 d.update(window=rng.choice([0.5, 0.25, 3.0]), beta=rng.choice([1.0, 2.0]))
             yield d
+    if target == 'util.interpolate_intervals':
+        grid = [0.25 * x for x in range(0, 13)]
+        for _ in range(n):
+            k = rng.randint(0, 3)
+            pts = sorted(rng.sample(grid, 2 * k))
+            iv = [[pts[2 * i], pts[2 * i + 1]] for i in range(k)]
+            if k >= 2 and rng.random() < 0.5:
+                iv[1][0] = iv[0][1]          # a shared boundary
+            tp = sorted(rng.choice(grid) for _ in range(rng.randint(0, 4)))
+            if rng.random() < 0.1 and len(tp) > 1:
+                tp = tp[::-1]
+            yield dict(intervals=iv, labels=['L%d' % i for i in range(k)], time_points=tp, fill_value='F')
     if target == 'util.merge_labeled_intervals':
         def seg(end, tag):
             k = rng.randint(1, 4)
